@@ -46,6 +46,14 @@ func c02Programs(ctx *Ctx) [][]tStmt {
 		{{Op: "V", Strs: []string{"a", "b"}}, {Op: "hasLabel", Strs: []string{"P"}}},
 		{{Op: "E"}, {Op: "hasLabel", Strs: []string{"knows"}}},
 		{{Op: "V"}},
+		// a window or a mark between the scan and the filter: the filter must not be moved in front of it
+		// (the model graph lists elements in the store's scan order, so the window cuts the same rows)
+		{{Op: "V"}, {Op: "limit", N: 2}, {Op: "hasLabel", Strs: []string{"P"}}},
+		{{Op: "V"}, {Op: "limit", N: 1}, {Op: "hasId", Strs: []string{"b"}}},
+		{{Op: "V"}, {Op: "skip", N: 1}, {Op: "hasLabel", Strs: []string{"P"}}},
+		{{Op: "V"}, {Op: "range", N: 1, M: 3}, {Op: "has", Has: eqL("Q")}},
+		{{Op: "V"}, {Op: "as", Str: "s"}, {Op: "hasLabel", Strs: []string{"P"}}},
+		{{Op: "E"}, {Op: "limit", N: 1}, {Op: "hasLabel", Strs: []string{"knows"}}},
 	}
 	w2 := &hExpr{Kind: "cond", Key: "$e.w", Op: "eq", Arg: 2.0}
 	mname := &hExpr{Kind: "cond", Key: "$m.name", Op: "eq", Arg: "x"}
@@ -85,7 +93,7 @@ func runC02(ctx *Ctx) error {
 	ctx.CaseTy = "c01_case"
 	ctx.Shard = 150
 	ctx.HasKF = true
-	ctx.Rule = "production compiler (index-start rewrite + load elision) vs the literal semantics: 22 start shapes (every spelling of a leading label / id filter, duplicated labels and ids, and()-wrapped forms, negated forms, filters after a move) x 22 tails that read properties of the current element, of earlier steps and of marks (has/render/select/fields/unwind/distinct/hasKey/path over vertex and edge marks), on the fixed graph and on random graphs, plus the C01 random program space; non-trivial = well typed with >= 1 row; distinct by (graph, program)"
+	ctx.Rule = "production compiler (index-start rewrite + load elision) vs the literal semantics: 28 start shapes (every spelling of a leading label / id filter, duplicated labels and ids, and()-wrapped forms, negated forms, filters after a move, after a window and after a mark) x 22 tails that read properties of the current element, of earlier steps and of marks (has/render/select/fields/unwind/distinct/hasKey/path over vertex and edge marks), on the fixed graph and on random graphs, plus the C01 random program space; non-trivial = well typed with >= 1 row; distinct by (graph, program)"
 	var inputs []c01Input
 	if ctx.Replay != nil {
 		var in c01Input
